@@ -12,7 +12,7 @@ RULE = ('one run = one adversarial connection (garbage / mutated / truncated req
         'one real executor, concurrent and subsequent; each canary is first run alone in a twin world and its '
         'transcripts compared; non-trivial = the adversary did something other than a clean exchange while a '
         'canary was in flight or before a later canary; distinct = distinct event-log digests')
-PROBES = ['front_tls', 'adv_plaintext_on_tls_port', 'adv_upstream_bad_framing', 'adv_upstream_gone_with_output_pending', 'adv_garbage', 'adv_truncated', 'adv_nonutf8', 'adv_bad_upstream', 'adv_plugin_raises',
+PROBES = ['adv_stalled_upload', 'front_tls', 'adv_plaintext_on_tls_port', 'adv_upstream_bad_framing', 'adv_upstream_gone_with_output_pending', 'adv_garbage', 'adv_truncated', 'adv_nonutf8', 'adv_bad_upstream', 'adv_plugin_raises',
           'adv_faults', 'adv_reverse', 'adv_web', 'adv_tunnel', 'canary_concurrent', 'canary_subsequent',
           'worker_survived_task_exception', 'blocking_connect_timeout']
 COMPONENTS = {
@@ -171,6 +171,12 @@ def run_one(tape: Any, cfg: Dict[str, Any], forbid: FrozenSet[str] = frozenset()
         hostile_upstream = (not slow_reader) and g.feature('adv_hostile_upstream', 0.1)
         if hostile_upstream:
             arole = ['forward', 'reverse'][tape.draw(2, 'hu-role')]
+        # archetype: an upload through a tunnel whose upstream accepts but never reads; the client leaves while the proxy still
+        # holds bytes for that upstream
+        stalled_upload = (not slow_reader) and (not hostile_upstream) and (not front_tls) and g.feature('adv_stalled_upload', 0.1)
+        if stalled_upload:
+            arole = 'tunnel'
+            w.probe('adv_stalled_upload')
         w.probe({'forward': 'adv_bad_upstream', 'tunnel': 'adv_tunnel', 'web': 'adv_web', 'reverse': 'adv_reverse'}[arole])
         faults = scen.setup_faults(w, tape, {
             'send': ['ECONNRESET', 'EPIPE', 'ETIMEDOUT', 'EHOSTUNREACH', 'ENOBUFS', 'short', 'eagain'],
@@ -178,8 +184,8 @@ def run_one(tape: Any, cfg: Dict[str, Any], forbid: FrozenSet[str] = frozenset()
             'connect': ['ECONNREFUSED', 'ETIMEDOUT', 'EHOSTUNREACH', 'ENETUNREACH', 'ENOBUFS'],
             'getaddrinfo': ['EAI_NONAME', 'EAI_AGAIN'],
         }, p_on=0.5, budget=6)
-        if slow_reader:
-            # this archetype is about a long-lived, well-behaved but slow connection: no injected errors
+        if slow_reader or stalled_upload:
+            # these archetypes are about a well-behaved but slow / stuck connection: no injected errors
             w.fault_p = 0.0
             faults = False
         if faults:
@@ -191,6 +197,8 @@ def run_one(tape: Any, cfg: Dict[str, Any], forbid: FrozenSet[str] = frozenset()
             up_mode = 'big_close'
         if hostile_upstream:
             up_mode = 'bad_framing'
+        if stalled_upload:
+            up_mode = 'noread'
         if up_mode == 'blackhole' and not g.note('blocking_connect_timeout'):
             up_mode = 'refuse'
         if up_mode == 'blackhole':
@@ -199,6 +207,8 @@ def run_one(tape: Any, cfg: Dict[str, Any], forbid: FrozenSet[str] = frozenset()
         w.fault_hosts.add('adv.example')
 
         def adv_script(idx: int) -> List[Any]:
+            if up_mode == 'noread':
+                return [('pause_read',), ('sleep', 60.0), ('close',)]
             if up_mode == 'stall':
                 return [('wait_eof',)]
             if up_mode == 'garbage':
@@ -229,12 +239,12 @@ def run_one(tape: Any, cfg: Dict[str, Any], forbid: FrozenSet[str] = frozenset()
         for ip in ('10.0.0.66', '10.0.0.67'):
             o = Origin(w, ip, 80, adv_script, name='adv-up', mode=rmode, latency=[0.0, 0.0, 0.3][tape.draw(3, 'lat')])
             o.remote.faultable = faults
-            o2 = Origin(w, ip, 443, adv_script, name='adv-up443', mode=rmode)
+            o2 = Origin(w, ip, 443, adv_script, name='adv-up443', mode=rmode, cap_in=1024 if stalled_upload else 65536)
             o2.remote.faultable = faults
         host = b'adv.example' if up_mode != 'noresolve' else b'nosuch.example'
         # the adversary's client bytes
         akind = ['valid', 'garbage', 'truncated', 'nonutf8', 'mutated'][tape.weighted([3, 2, 3, 2, 2], 'akind')]
-        if slow_reader or hostile_upstream:
+        if slow_reader or hostile_upstream or stalled_upload:
             akind = 'valid'
         if arole == 'forward':
             base = b'GET http://' + host + b'/a HTTP/1.1\r\nHost: ' + host + b'\r\nX-A: 1\r\n\r\n'
@@ -278,8 +288,10 @@ def run_one(tape: Any, cfg: Dict[str, Any], forbid: FrozenSet[str] = frozenset()
             cutoff = tape.draw(len(data) + 1, 'cutoff')
             w.probe('adv_truncated')
         ending = ['close', 'reset', 'shut_wr', 'hang', 'follow'][tape.draw(5, 'ending')]
-        if hostile_upstream:
+        if hostile_upstream or stalled_upload:
             cutoff = len(data)
+        if stalled_upload:
+            ending = ['close', 'reset', 'shut_wr'][tape.draw(3, 'su-ending')]
         if slow_reader:
             cutoff = len(data)
             ending = 'hang'
@@ -300,6 +312,9 @@ def run_one(tape: Any, cfg: Dict[str, Any], forbid: FrozenSet[str] = frozenset()
                 ending = ['close', 'reset'][tape.draw(2, 'tls-ending')]
         mode = ['burst', 'dribble'][tape.draw(2, 'amode')]
         ascript.append(('send', data[:cutoff], mode, 16))
+        if stalled_upload:
+            ascript += [('wait_rx', lambda p: b'\r\n\r\n' in p.rx), ('send', b'U' * 40000, 'burst'), ('wait_drain',),
+                        ('sleep', [0.0, 0.05, 0.5][tape.draw(3, 'su-wait')])]
         if arole == 'reverse' and ending == 'follow':
             # a second keep-alive request, possibly to another route
             ascript.append(('wait_rx', lambda p: len(p.rx) > 0))
